@@ -3,9 +3,11 @@
 package run
 
 import (
+	"encoding/json"
 	"fmt"
 	"os"
 	"path/filepath"
+	"regexp"
 	"sort"
 	"strings"
 	"testing"
@@ -13,6 +15,7 @@ import (
 
 	"pgregory.net/rapid"
 
+	"verifharness/filesim"
 	"verifharness/jsonx"
 	"verifharness/mrogen"
 	"verifharness/mrprun"
@@ -747,5 +750,324 @@ func TestE2Resources(t *testing.T) {
 		stats.Case("C12", overlap > 0, stats.Digest(c.src, cores, mem), cl, func() any {
 			return map[string]any{"program": stats.Trunc(c.src, 600), "cores": cores, "mem": mem, "max_threads": maxTh, "max_mem": maxMem, "jobs": len(recs)}
 		})
+	})
+}
+
+// ---- file runs on E2 -------------------------------------------------------------
+
+func (c *e2Case) fileEntries() []*filesim.Entry {
+	files, _ := filepath.Glob(filepath.Join(c.Plan.Ledger, "files.*.json"))
+	sort.Strings(files)
+	var all []*filesim.Entry
+	for _, f := range files {
+		b, err := os.ReadFile(f)
+		if err != nil {
+			continue
+		}
+		var es []*filesim.Entry
+		if json.Unmarshal(b, &es) == nil {
+			all = append(all, es...)
+		}
+	}
+	return all
+}
+
+// e2Outs compares the post-processed outputs record with the model's, for a
+// value of type ty: non-file values are equal; a file leaf whose token says
+// "never written" is null, any other points (below outs/, unless the output
+// was a symbolic link) at the content its token stands for.
+func (c *e2Case) e2Outs(t *rapid.T, pos string, ty mrogen.Ty, want, got any, nested *int) {
+	prog := c.prog
+	if prog.FileKind(ty) < 2 {
+		if ok, d := refsem.EqualSoft(want, c.normPs(got), pos); !ok {
+			fail(t, "C13", "outs-record-differs", "%s\n%s", d, c.describe())
+		}
+		return
+	}
+	if el, ok := ty.Elem(); ok {
+		if ty.IsArray() {
+			w, _ := refsem.Concretize(want).([]any)
+			g, _ := got.([]any)
+			if len(w) != len(g) {
+				fail(t, "C13", "outs-record-differs", "%s: %d elements, expected %d\n%s", pos, len(g), len(w), c.describe())
+			}
+			for i := range w {
+				c.e2Outs(t, fmt.Sprintf("%s[%d]", pos, i), el, w[i], g[i], nested)
+			}
+			return
+		}
+		w, _ := refsem.Concretize(want).(*jsonx.Obj)
+		g, _ := got.(*jsonx.Obj)
+		if (w == nil) != (g == nil) || (w != nil && len(w.Keys) != len(g.Keys)) {
+			fail(t, "C13", "outs-record-differs", "%s: %s, expected %s\n%s", pos, jsonx.Marshal(got), jsonx.Marshal(refsem.Concretize(want)), c.describe())
+		}
+		if w != nil {
+			for i, k := range w.Keys {
+				v, ok := g.Get(k)
+				if !ok {
+					fail(t, "C13", "outs-record-differs", "%s: key %q is missing\n%s", pos, k, c.describe())
+				}
+				if k == "" || k == "." || k == ".." || strings.ContainsAny(k, "/\x00") || len(k) > 255 {
+					// cannot be a directory name: the entry stays where it is
+					if ok, d := refsem.EqualSoft(w.Vals[i], c.normPs(v), pos+"["+k+"]"); !ok {
+						fail(t, "C13", "outs-record-differs", "%s\n%s", d, c.describe())
+					}
+					continue
+				}
+				c.e2Outs(t, pos+"["+k+"]", el, w.Vals[i], v, nested)
+			}
+		}
+		return
+	}
+	if isFileScalar(prog.U, ty) {
+		tok, _ := refsem.Concretize(want).(string)
+		if refsem.Concretize(want) == nil || tok == "" {
+			if got != nil {
+				fail(t, "C13", "outs-record-differs", "%s: %s, expected null\n%s", pos, jsonx.Marshal(got), c.describe())
+			}
+			return
+		}
+		if !stageTokenRe.MatchString(tok) {
+			// a literal from the program text, not a file a stage wrote:
+			// it names nothing that exists and is reported as null
+			return
+		}
+		kind := filesim.LeafKind(ty.Base, tok)
+		if kind == "never" {
+			if got != nil {
+				fail(t, "C13", "never-written-file-not-null", "%s: %s for a path that was returned but never written\n%s", pos, jsonx.Marshal(got), c.describe())
+			}
+			return
+		}
+		s, ok := got.(string)
+		if !ok {
+			fail(t, "C13", "output-missing-under-outs", "%s: %s, expected the location of file %s\n%s", pos, jsonx.Marshal(got), tok, c.describe())
+		}
+		*nested++
+		outs := filepath.Join(c.PsDir(), "outs") + "/"
+		if kind != "link" && kind != "chain" && !strings.HasPrefix(s, outs) {
+			fail(t, "C13", "output-missing-under-outs", "%s: %q is not below %s\n%s", pos, s, outs, c.describe())
+		}
+		p := s
+		want := filesim.ContentFor(tok)
+		if kind == "dir" {
+			p = filepath.Join(s, "part0")
+			want = filesim.ContentFor(tok + "/part0")
+		}
+		if b, err := os.ReadFile(p); err != nil || string(b) != want {
+			fail(t, "C13", "output-content-differs", "%s: %s holds %q (%v), the stage wrote %q\n%s", pos, p, b, err, want, c.describe())
+		}
+		return
+	}
+	w, _ := refsem.Concretize(want).(*jsonx.Obj)
+	g, _ := got.(*jsonx.Obj)
+	if (w == nil) != (g == nil) {
+		fail(t, "C13", "outs-record-differs", "%s: %s, expected %s\n%s", pos, jsonx.Marshal(got), jsonx.Marshal(refsem.Concretize(want)), c.describe())
+	}
+	if w == nil {
+		return
+	}
+	fields := structFields(prog, ty.Base)
+	for i, k := range w.Keys {
+		v, _ := g.Get(k)
+		var ft *mrogen.Ty
+		for _, f := range fields {
+			if f.Name == k {
+				tt := f.T
+				ft = &tt
+			}
+		}
+		if ft == nil {
+			continue
+		}
+		c.e2Outs(t, pos+"."+k, *ft, w.Vals[i], v, nested)
+	}
+}
+
+var stageTokenRe = regexp.MustCompile(`^[sf][0-9]+$`)
+
+// normPs maps paths inside the pipestance to their tokens.
+func (c *e2Case) normPs(v any) any {
+	return filesim.New(c.PsDir()).Norm(v)
+}
+
+// TestE2Files: C04 / C13 / C14 samples under the real mrp, mrjob and a stage
+// binary that writes real files, with VDR running concurrently with jobs.
+func TestE2Files(t *testing.T) {
+	root := workRoot(t)
+	rapid.Check(t, func(t *rapid.T) {
+		cfg := filesCfg()
+		cfg.MaxStages, cfg.MaxCalls, cfg.MaxPipelines = 3, 3, 2
+		prog := mrogen.GenProgram(t, cfg)
+		for k := range excluded {
+			delete(excluded, k)
+		}
+		caseSeq++
+		dir := filepath.Join(root, fmt.Sprintf("e2fil%d-%d", os.Getpid(), caseSeq))
+		if os.Getenv("VERIF_KEEP") == "" {
+			defer os.RemoveAll(dir)
+		}
+		src := prog.Source(nil)
+		opts := stagefn.Opts{NullPct: rapid.SampledFrom([]int{0, 0, 5}).Draw(t, "outNullPct"), ChunkChoices: []int{0, 1, 2, 3}, Files: true}
+		model := refsem.Eval(prog, &opts)
+		if model.Unsupported != "" || len(model.Jobs) > 25 || len(model.Jobs) < 1 {
+			return
+		}
+		mode := rapid.SampledFrom([]string{"rolling", "rolling", "post", "strict", "strict", "disable"}).Draw(t, "vdrMode")
+		pl := &plan.Plan{Opts: opts, Faults: map[string]plan.Fault{}, SleepMs: rapid.SampledFrom([]int{0, 10, 25}).Draw(t, "jobMs")}
+		mc, err := mrprun.New(prog, src, dir, mroot(t), pl)
+		if err != nil {
+			t.Fatalf("INFRA: %v", err)
+		}
+		c := &e2Case{Case: mc, prog: prog, src: src, model: model}
+		sentinel := filepath.Join(dir, "sentinel")
+		os.MkdirAll(sentinel, 0o755)
+		os.WriteFile(filepath.Join(sentinel, "a.txt"), []byte("sentinel"), 0o644)
+		sentinelHash := hashTree(sentinel)
+		p, err := c.Start("--localcores=4", "--localmem=8", "--vdrmode="+mode)
+		if err != nil {
+			t.Fatalf("INFRA: %v", err)
+		}
+		if rc := p.Wait(180 * time.Second); rc != 0 {
+			fail(t, "C01", "e2-run-failed", "vdr mode %s: mrp exited with %d\n%s\n%s", mode, rc, stats.Trunc(p.Log(), 3000), c.describe())
+		}
+		c.logf("vdr mode %s", mode)
+		recs := c.Ledger()
+		entries := c.fileEntries()
+		// --- C04: every job found the files named in its arguments
+		consumers := 0
+		if only("C04") {
+			files, _ := filepath.Glob(filepath.Join(c.Plan.Ledger, "*.json"))
+			for _, f := range files {
+				if strings.HasPrefix(filepath.Base(f), "files.") {
+					continue
+				}
+				b, _ := os.ReadFile(f)
+				var rec struct {
+					Identity      string          `json:"identity"`
+					InputProblems []string        `json:"input_problems"`
+					End           int64           `json:"end_ns"`
+					Args          json.RawMessage `json:"args"`
+				}
+				if json.Unmarshal(b, &rec) != nil {
+					continue
+				}
+				if len(rec.InputProblems) > 0 {
+					fail(t, "C04", "file-missing-at-start", "vdr mode %s: job %s did not find what its arguments name: %v\n%s", mode, rec.Identity, rec.InputProblems, c.describe())
+				}
+			}
+			for _, r := range recs {
+				if strings.Contains(string(r.Args), "\"s") || strings.Contains(string(r.Args), "\"f") {
+					consumers++
+				}
+			}
+		}
+		// the executed jobs and their (normalised) arguments are the model's
+		got, err := ledgerMultiset(c.prog, recs, false)
+		if err != nil {
+			t.Fatalf("INFRA: %v", err)
+		}
+		if d := compareMultisets(modelMultiset(c.model), got); d != "" {
+			fail(t, "C03", "e2-job-multiset-differs", "%s\n%s", d, c.describe())
+		}
+		// --- C13: the post-processed record and outs/
+		nested := 0
+		post, err := c.TopOuts()
+		if err != nil {
+			fail(t, "C13", "outs-record-unreadable", "%v\n%s", err, c.describe())
+		}
+		if only("C13") || only("C04") {
+			top := prog.Pipeline(prog.Top.Callee)
+			for _, op := range top.Outs {
+				w, _ := model.Outs.Get(op.Name)
+				g, _ := post.Get(op.Name)
+				c.e2Outs(t, op.Name, op.T, w, g, &nested)
+			}
+		}
+		// --- C14
+		removed, mustGo := 0, 0
+		if only("C14") && mode != "disable" {
+			psDir := c.PsDir()
+			filepath.Walk(psDir, func(p string, fi os.FileInfo, err error) error {
+				if err != nil || !fi.IsDir() || fi.Name() != "tmp" || !jobDirRe.MatchString(filepath.Base(filepath.Dir(p))) {
+					return nil
+				}
+				if ents, _ := os.ReadDir(p); len(ents) > 0 {
+					fail(t, "C14", "tmp-dir-survives", "vdr mode %s: %s still holds %d entries at completion\n%s", mode, p, len(ents), c.describe())
+				}
+				return filepath.SkipDir
+			})
+			bound := boundOutputs(prog)
+			for _, e := range entries {
+				if !e.Written || e.Kind == "tmp" {
+					continue
+				}
+				_, err := os.Lstat(e.Path)
+				gone := err != nil
+				if gone {
+					removed++
+				}
+				if e.Phase == "chunk" && e.Split {
+					mustGo++
+					if !gone {
+						fail(t, "C14", "chunk-file-survives", "vdr mode %s: %s, written by chunk job %s of a splitting stage, is still there at completion\n%s", mode, e.Path, e.JobName, c.describe())
+					}
+					continue
+				}
+				if e.Phase != "main" && e.Phase != "join" {
+					continue
+				}
+				call, stage := resolveCall(prog, e.CallPath)
+				if call == nil || stage == nil {
+					continue
+				}
+				sv := ""
+				if stage.Res != nil {
+					sv = stage.Res.Volatile
+				}
+				volatile := sv == "strict" || (mode == "strict" && sv == "") || call.Volatile
+				kept := e.Param != "" && (bound[e.CallPath+"|"+e.Param] || bound[e.CallPath+"|*"])
+				if volatile && !kept {
+					mustGo++
+					if !gone {
+						fail(t, "C14", "volatile-file-survives", "vdr mode %s: %s (%s of %s, output %q) is bound by no top-level output and no retain but is still there at completion\n%s", mode, e.Path, e.Kind, e.JobName, e.Param, c.describe())
+					}
+				}
+			}
+			filepath.Walk(psDir, func(p string, fi os.FileInfo, err error) error {
+				if err == nil && fi.Name() == "_vdrkill" {
+					var r killReport
+					b, _ := os.ReadFile(p)
+					if json.Unmarshal(b, &r) == nil {
+						for _, kp := range r.Paths {
+							if _, err := os.Lstat(kp); err == nil {
+								fail(t, "C14", "reported-path-exists", "vdr mode %s: %s lists %s as removed but it exists\n%s", mode, p, kp, c.describe())
+							}
+							if !strings.HasPrefix(kp, psDir+"/") {
+								fail(t, "C14", "reported-path-outside", "vdr mode %s: %s lists %s\n%s", mode, p, kp, c.describe())
+							}
+						}
+					}
+				}
+				return nil
+			})
+			if h := hashTree(sentinel); h != sentinelHash {
+				fail(t, "C14", "outside-touched", "the directory next to the pipestance changed\n%s", c.describe())
+			}
+		}
+		digest := stats.Digest(src, mode)
+		sample := func() any {
+			return map[string]any{"program": stats.Trunc(src, 800), "vdr_mode": mode, "jobs": len(recs), "files": len(entries)}
+		}
+		cl := []string{"e2-files", "mode:" + mode}
+		if only("C04") {
+			stats.Case("C04", consumers > 0 && mode != "disable", digest, append(cl, "e2-consumers"), sample)
+		}
+		if only("C13") {
+			stats.Case("C13", nested > 0, digest, cl, sample)
+		}
+		if only("C14") {
+			stats.Case("C14", removed > 0, digest, cl, sample)
+		}
 	})
 }
